@@ -655,6 +655,9 @@ func C18(c *core.Ctx) {
 	{
 		sub := core.NewCtx(c.P, c.Prop, c.Tier)
 		c15Aliasing(sub, core.ModPath+"/dv/dv")
+		// … and in dv/config, where the Sync prefixes are derived from one another: two
+		// appends to the same base name give two names that share their last slot
+		c15Aliasing(sub, core.ModPath+"/dv/config")
 		n := 0
 		for _, o := range sub.Obls {
 			if !strings.HasPrefix(o.Key, "R15.7:extended-name-owns-storage") {
